@@ -1,6 +1,7 @@
 import PdshVerif.Base.Hex
 import PdshVerif.Opt.Settings
 import PdshVerif.Opt.Spec
+import PdshVerif.Opt.Use
 import Driver.Util
 
 /-!
@@ -11,7 +12,8 @@ import Driver.Util
       pers=dsh|pdcp|rpdcp luser=HEX lmax=N prog=HEX avail=HEX,HEX,.. [modopts=HEX] env=NAMEHEX:VALHEX,.. argv=HEX,HEX,..
         -> "exit N"
          | "ok <fanout> <ctmo> <utmo> <ruser> <rcmd|~> <misc|~> <path> q=<0|1> S=<0|1> k=<0|1> term=<0|1> mw=<A|B> z=<0|1>
-            next=<info|server|client|run|copy|interactive> cmd=<HEX|~> in=HEX,.. out=<HEX|~>"   (`mainPlan`: main as a whole)
+            next=<info|server|client|run|copy|interactive> cmd=<HEX|~> in=HEX,.. out=<HEX|~> users=HOSTHEX:USERHEX,..|!"
+            (`mainPlan`: main as a whole; `contacts`: the user every target is contacted with)
   `pdshmodel opt spec`
       pers=.. luser= lmax= prog= avail= dfr=HEX(default rcmd) st=0|1
       cf= ef= ct= et= cu= eu= cl= cR= eR= cM= eM= ce= ee=       (texts per setting: c* command line, e* environment)
@@ -70,6 +72,11 @@ def nextName : Next → String
   | .run none => "copy"
   | .interactive => "interactive"
 
+/-- `contacts` (Opt/Use.lean: the registry model of C09 on the tokens of this command line): host:user,... -/
+def usersText : Rcmd.Outcome → String
+  | .fatal => "!"
+  | .lines ls => ",".intercalate (ls.map fun l => s!"{Hex.encodeChars l.host}:{Hex.encodeChars l.user}")
+
 def stepModel (fx : Fixes) (line : String) : String :=
   let ws := Driver.words line
   match (kv ws "pers").bind parsePers, parseDefaults ws, parseEnv ((kv ws "env").getD ""),
@@ -83,7 +90,8 @@ def stepModel (fx : Fixes) (line : String) : String :=
       s!"{optHex c.miscModules} {Hex.encodeChars c.remotePath} q={b01 c.infoOnly} S={b01 c.retRemoteRc} " ++
       s!"k={b01 c.killOnFail} term={b01 (runTerminates c)} mw={String.ofList (miscWinner c)} z={b01 c.pcpServer} " ++
       s!"next={nextName nx} cmd={optHex (assembleCmd (getopt (fullString d p) argv).2)} " ++
-      s!"in={",".intercalate (files.1.map Hex.encodeChars)} out={optHex files.2}"
+      s!"in={",".intercalate (files.1.map Hex.encodeChars)} out={optHex files.2} " ++
+      s!"users={usersText (contacts d env (getopt (fullString d p) argv).1)}"
   | _, _, _, _ => "bad-op"
 
 def sources (ws : List String) (c e : String) : Spec.Sources :=
